@@ -289,6 +289,18 @@ def run(repo, rep, tier):
                "; ".join(hm["problems"]), key=f"C07.R4@{axis}-headers")
     rep.ob("C07.R4", rtd, "objects are copied to the file store after the last tile", tm["copy_after_ok"], "", key="C07.R4@copy-after")
     rep.extra["template_sites"] = n_sites
+    # Document.save leaves out the tables is_a_pivot_table names: only a table whose own drawable carries the pivot flag may be
+    # left out (anything wider leaves edited ordinary tables with their old tiles under a new declared size)
+    from ..funsum import Summarizer as _Summ
+    ipt = repo.func("model.py", "_NumbersModel.is_a_pivot_table")
+    tid_ = ipt.args.args[1].arg
+    rets_ = [(p_.kind, U(p_.ret) if p_.ret is not None else None, p_.conds) for p_ in _Summ(consts=repo.consts).summarize(ipt)]
+    want_ = f"self.objects[self.table_info_id({tid_})].is_a_pivot_table"
+    ok_ = len(rets_) == 1 and rets_[0][0] == "return" and rets_[0][1] in (want_, f"bool({want_})") and not rets_[0][2]
+    rep.ob("C07.R4", ipt, "only a table whose drawable carries the pivot flag is left out when saving", ok_,
+           "" if ok_ else f"is_a_pivot_table answers `{(rets_[0][1] or '')[:90] if rets_ else '?'}`: a table that merely copied a reference from a pivot table (add_table copies every "
+           "reference of its source) is never re-tiled, its declared size and its tiles disagree after an edit", key="C07.R4@save:pivot-only")
+
     rep.floor("C07.R1", 11)
     rep.floor("C07.R2", 8)
     rep.floor("C07.R3", 5)
